@@ -1602,7 +1602,7 @@ pub fn prop() -> DiceProp {
         fixed,
         classify,
         rule: format!(
-            "families of 1..n type definitions (unit / `S()` / `S{{}}` / 1..4+ positional or named fields / enums with mixed variants; lifetime, type and const parameters in both orders with bounds, where-clauses and defaults; raw-identifier type, variant and field names; fields of primitive, string, container, reference types and of other generated derive_more::Debug types to depth 3; every field independently plain / #[debug(skip)] / #[debug(ignore)] / #[debug(\"lit\", args)] incl. trailing comma, raw-string literal, empty literal, an explicit argument named like another field; enum variants with a variant-level #[debug(\"lit\", args)] next to plain siblings; container #[debug(bound(..))]/#[debug(bounds(..))] attributes; type parameters inside tuple/array/Option<Vec<_>>/Box/raw-pointer field types and inside another generated generic type; an enum without variants) rendered as three twins with identical names: derive_more::Debug, the reference (std #[derive(Debug)] when attribute-less, otherwise std builders with finish_non_exhaustive() and &format_args!(LIT, ARGS)), and a hand-written twin carrying the recorded defect models; 2+ values per case (every variant of an enum) x {} outer specs (all-pairs over fill/align x sign x # x 0 x width x precision x ?/x?/X?, full product of #/type/0/width/precision, 40 fixed random) x {} nestings (bare, Some, vec!, tuple, BTreeMap, std-derived named/tuple wrappers, derive_more-derived named/tuple/skipping wrappers) compared text for text; non-trivial = the family has at least one field or a raw identifier (flags, nesting and skip can change the text); distinct by program text",
+            "families of 1..n type definitions (unit / `S()` / `S{{}}` / 1..4+ positional or named fields / enums with mixed variants; lifetime, type and const parameters in both orders with bounds, where-clauses and defaults; raw-identifier type, variant and field names; fields of primitive, string, container, reference types and of other generated derive_more::Debug types to depth 3; every field independently plain / #[debug(skip)] / #[debug(ignore)] / #[debug(\"lit\", args)] incl. trailing comma, raw-string literal, empty literal, an explicit argument named like another field; enum variants with a variant-level #[debug(\"lit\", args)] next to plain siblings; container #[debug(bound(..))]/#[debug(bounds(..))] attributes; type parameters inside tuple/array/Option<Vec<_>>/Box/raw-pointer field types and inside another generated generic type; an enum without variants; a fixed case with a field whose own Debug fails after writing part of its text, where the Result and the text that reached the sink are compared) rendered as three twins with identical names: derive_more::Debug, the reference (std #[derive(Debug)] when attribute-less, otherwise std builders with finish_non_exhaustive() and &format_args!(LIT, ARGS)), and a hand-written twin carrying the recorded defect models; 2+ values per case (every variant of an enum) x {} outer specs (all-pairs over fill/align x sign x # x 0 x width x precision x ?/x?/X?, full product of #/type/0/width/precision, 40 fixed random) x {} nestings (bare, Some, vec!, tuple, BTreeMap, std-derived named/tuple wrappers, derive_more-derived named/tuple/skipping wrappers) compared text for text; non-trivial = the family has at least one field or a raw identifier (flags, nesting and skip can change the text); distinct by program text",
             ns,
             NESTS.len()
         ),
